@@ -75,14 +75,14 @@ var c07Layouts = []c07Layout{
 func c07Program(ls []int) string {
 	var sb strings.Builder
 	// txt and fl are assigned the value they already hold on every line: an update is an update
-	sb.WriteString("gauge ts\ncounter hit by k\ngauge mark\ntext txt\ngauge fl\n")
+	sb.WriteString("gauge ts\ncounter hit by k\ngauge mark\ntext txt\ngauge fl\nhistogram hist buckets 1, 2, 4\n")
 	for i, li := range ls {
-		fmt.Fprintf(&sb, "/^%c (?P<v>.*)$/ {\n  strptime($v, \"%s\")\n  ts = timestamp()\n  hit[\"%c\"]++\n  txt = \"same\"\n  fl = 2.5\n}\n", 'A'+i, c07Layouts[li].layout, 'A'+i)
+		fmt.Fprintf(&sb, "/^%c (?P<v>.*)$/ {\n  strptime($v, \"%s\")\n  ts = timestamp()\n  hit[\"%c\"]++\n  txt = \"same\"\n  fl = 2.5\n  hist = 1\n}\n", 'A'+i, c07Layouts[li].layout, 'A'+i)
 	}
-	sb.WriteString("/^S (?P<n>-?\\d+)$/ {\n  settime($n)\n  ts = timestamp()\n  hit[\"S\"]++\n  txt = \"same\"\n  fl = 2.5\n}\n")
-	sb.WriteString("/^N/ {\n  ts = timestamp()\n  hit[\"N\"]++\n  txt = \"same\"\n  fl = 2.5\n}\n")
+	sb.WriteString("/^S (?P<n>-?\\d+)$/ {\n  settime($n)\n  ts = timestamp()\n  hit[\"S\"]++\n  txt = \"same\"\n  fl = 2.5\n  hist = 1\n}\n")
+	sb.WriteString("/^N/ {\n  ts = timestamp()\n  hit[\"N\"]++\n  txt = \"same\"\n  fl = 2.5\n  hist = 1\n}\n")
 	// strptime after an update: only data updated afterwards carry the parsed instant
-	sb.WriteString("/^M (?P<v>.*)$/ {\n  mark = 1\n  strptime($v, \"" + c07Layouts[ls[0]].layout + "\")\n  hit[\"M\"]++\n  txt = \"same\"\n  fl = 2.5\n}\n")
+	sb.WriteString("/^M (?P<v>.*)$/ {\n  mark = 1\n  strptime($v, \"" + c07Layouts[ls[0]].layout + "\")\n  hit[\"M\"]++\n  txt = \"same\"\n  fl = 2.5\n  hist = 1\n}\n")
 	return sb.String()
 }
 
@@ -124,7 +124,7 @@ func propC07(e *Env) {
 		return nil
 	}
 	mts, mhit, mmark := find("ts"), find("hit"), find("mark")
-	mtxt, mfl := find("txt"), find("fl")
+	mtxt, mfl, mhist := find("txt"), find("fl"), find("hist")
 	cfg := fmt.Sprintf("layouts %v, override location %s, syslog-current-year %v", func() []string {
 		var s []string
 		for _, li := range ls {
@@ -324,14 +324,14 @@ func propC07(e *Env) {
 			e.Fail(cls, "%s: hit[%s] was updated after the time register was set and carries %v, expected %v", ctxt, hitKey, got.UTC(), want.UTC())
 			return
 		}
-		for _, m := range []*metrics.Metric{mtxt, mfl} {
+		for _, m := range []*metrics.Metric{mtxt, mfl, mhist} {
 			w := m.FindLabelValueOrNil(nil)
 			if w == nil {
 				e.Broken("%s: %s has no datum after the line", ctxt, m.Name)
 				return
 			}
 			if got := w.Value.TimeUTC(); representable && !got.Equal(want) {
-				e.Fail("datum-stamp", "%s: %s was assigned (the value it already held) after the time register was set and carries %v, expected %v", ctxt, m.Name, got.UTC(), want.UTC())
+				e.Fail("datum-stamp", "%s: %s was updated (with the value it is given on every line) after the time register was set and carries %v, expected %v", ctxt, m.Name, got.UTC(), want.UTC())
 				return
 			}
 		}
